@@ -143,7 +143,15 @@ func Render(t *rapid.T, toks []Tok, lay LayoutCfg) (string, []int) {
 	} else {
 		b.WriteString(lay.eol(t))
 	}
-	return b.String(), offs
+	// "\n\r" is one line break for Lua but two lines for an LSP client: never produce it (a don't-care
+	// class). Same length, so the token offsets stay valid.
+	out := []byte(b.String())
+	for i := 0; i+1 < len(out); i++ {
+		if out[i] == '\n' && out[i+1] == '\r' && (i+2 >= len(out) || out[i+2] != '\n') {
+			out[i+1] = '\n'
+		}
+	}
+	return string(out), offs
 }
 
 var mutKeywords = []string{"and", "break", "do", "else", "elseif", "end", "false", "for", "function", "goto", "if", "in", "local",
